@@ -549,9 +549,10 @@ pub fn gen_rec_case(rng: &mut Rng, small_alphabet: bool) -> Option<RecCase> {
         if table_has_reduce_loop(&b.grm, usize::from(sg.all_states_len()), &st) {
             continue;
         }
-        let (costs, cost_kind): (Vec<u8>, &'static str) = match rng.below(3) {
+        let (costs, cost_kind): (Vec<u8>, &'static str) = match rng.below(4) {
             0 => (vec![1; ag.tokens.len()], "all-1"),
             1 => ((0..ag.tokens.len()).map(|_| rng.range(1, 3) as u8).collect(), "1-3"),
+            2 => ((0..ag.tokens.len()).map(|_| rng.range(200, 255) as u8).collect(), "all-200-255"),
             _ => ((0..ag.tokens.len()).map(|_| if rng.chance(1, 3) { rng.range(200, 255) as u8 } else { rng.range(1, 2) as u8 }).collect(), "some-200-255"),
         };
         return Some(RecCase { ag, b, st, costs, cost_kind });
